@@ -1684,7 +1684,7 @@ func c01SwIsDecl(t string) bool {
 
 // notLone: (S10) a block never consists of a single declaration
 func (g *c01SwG) notLone(list []c01SwStmt) []c01SwStmt {
-	if !c01SwAv("S10-lone-decl") {
+	if !c01SwAv("S10-lone-decl") && !c01SwAv("S15-class-effects") {
 		return list
 	}
 	n, decl := 0, false
@@ -1692,6 +1692,9 @@ func (g *c01SwG) notLone(list []c01SwStmt) []c01SwStmt {
 		if s.text != "" {
 			n++
 			decl = c01SwIsDecl(s.text)
+			if !c01SwAv("S10-lone-decl") {
+				decl = c01SwReLoneClass.MatchString(s.text) // (S15) only a lone class is under an open finding
+			}
 		}
 	}
 	if n == 1 && decl {
@@ -1860,7 +1863,12 @@ func (g *c01SwG) stmt(d int, fnLevel bool) []c01SwStmt {
 	list := g.stmt1(d, false)
 	g.pop()
 	for _, st := range list {
-		if c01SwIsDecl(st.text) {
+		isDecl := c01SwIsDecl(st.text)
+		if !c01SwAv("S11-else-lexical") && !c01SwAv("S12-static-lexical") {
+			// only the function-declaration part of S11 is open (S11f)
+			isDecl = c01SwReFnStart.MatchString(st.text)
+		}
+		if isDecl {
 			fs.vars = fs.vars[:nvars]
 			fc.planned = planned
 			return []c01SwStmt{c01SwExprStmt(g.hostFn() + "(" + g.args(1, 2) + ")")}
@@ -2037,6 +2045,9 @@ func (g *c01SwG) declStmt(d int) []c01SwStmt {
 		pat := g.pattern(2, true, &names, arr)
 		src := g.patternSource(ed, arr)
 		kw := g.kwLCV()
+		if kw == "var" && !arr && len(names) == 0 && c01SwAv("S16-hoist-empty-pattern") {
+			kw = "let" // (S16) a var object pattern that binds nothing is hoisted into an unparenthesised `{…}=…`
+		}
 		for _, nm := range names {
 			if kw == "var" {
 				g.declVar(&c01SwVar{name: nm})
@@ -2080,7 +2091,7 @@ func (g *c01SwG) ifStmt(d int) []c01SwStmt {
 		anyFlow = anyFlow || flow[n]
 	}
 	// S11: when one branch ends in a flow statement the minifier flattens its siblings into the enclosing block
-	noDecl := anyFlow && c01SwAv("S11-else-lexical")
+	noDecl := anyFlow && (c01SwAv("S11-else-lexical") || c01SwAv("S11f-else-function"))
 	min := 0
 	if c01SwAv("K3-pure-binary") {
 		min = 1 // no `if (cond) {}` whose condition would be dropped
@@ -2828,6 +2839,7 @@ func c01SwClassify(src string) []string {
 	}
 	// direct statements of a block
 	direct := func(o, c int) []string { return c01SwNonEmpty(c01SwTopSplit(code[o+1:c], ";\n")) }
+	declRe := c01SwReDeclStart
 	hasDirectDecl := func(o, c int) bool {
 		inner := code[o+1 : c]
 		depth := 0
@@ -2843,7 +2855,7 @@ func c01SwClassify(src string) []string {
 				if i > 0 || true {
 					rest = strings.TrimLeft(rest, ";}\n \t")
 				}
-				if c01SwReDeclStart.MatchString(rest) {
+				if declRe.MatchString(rest) {
 					return true
 				}
 			}
@@ -2930,6 +2942,35 @@ func c01SwClassify(src string) []string {
 			}
 		}
 	}
+	declRe = c01SwReFnStart
+	// S11f: the same with a function declaration: else { function … } after a branch that ends in a flow statement, or if (…) { decl … } else <flow>
+	for _, m := range c01SwReElse.FindAllStringIndex(code, -1) {
+		o := m[1] - 1
+		c, ok := open[o]
+		if !ok {
+			continue
+		}
+		before := strings.TrimRight(code[:m[0]], " \n\t\r")
+		thenFlow := c01SwReFlowEnd.MatchString(before)
+		if thenFlow && hasDirectDecl(o, c) {
+			found["S11f-else-function"] = true
+		}
+		// the else block itself ends in a flow statement and the then-block declares directly
+		inner := strings.TrimRight(code[o+1:c], " \n\t\r;")
+		if c01SwReFlowBlock.MatchString(inner) && strings.HasSuffix(before, "}") {
+			if to, ok := closeM[len(before)-1]; ok && hasDirectDecl(to, len(before)-1) {
+				found["S11f-else-function"] = true
+			}
+		}
+	}
+	if m := regexp.MustCompile(`\}\s*else\s+(return|throw|break|continue)\b`).FindAllStringIndex(code, -1); m != nil {
+		for _, mm := range m {
+			if to, ok := closeM[mm[0]]; ok && hasDirectDecl(to, mm[0]) {
+				found["S11f-else-function"] = true
+			}
+		}
+	}
+	declRe = c01SwReDeclStart
 	// blocks: S3, S10
 	for o, c := range open {
 		if code[o] != '{' {
@@ -2964,8 +3005,20 @@ func c01SwClassify(src string) []string {
 		if c01SwReDestrStart.MatchString(st[0]) {
 			found["S3-destructure-block"] = true
 		}
+		if c01SwReLoneClass.MatchString(st[0]) {
+			found["S15-class-effects"] = true // a block whose only statement is a class (declaration or initialiser)
+		}
 		if (kind == "loop" || kind == "else") && c01SwReDeclStart.MatchString(st[0]) {
 			found["S10-lone-decl"] = true
+		}
+	}
+	// S16: `var {…} = …` whose object pattern binds no name (hoistVars turns it into an expression statement `{…}=…`)
+	for _, m := range c01SwReVarObj.FindAllStringIndex(code, -1) {
+		o := m[1] - 1
+		if c, ok := open[o]; ok {
+			if !c01SwReBindName.MatchString(code[o : c+1]) {
+				found["S16-hoist-empty-pattern"] = true
+			}
 		}
 	}
 	// K1: return a,b,undefined / expression statements followed by return undefined | void 0 | return;
@@ -3123,5 +3176,12 @@ func c01SwClassify(src string) []string {
 }
 
 // c01SwKeys2 lists the avoid keys in reporting order.
-var c01SwKeys2 = []string{"S1-param-default", "S3-destructure-block", "S4-static-num", "S5-static-var", "S6-static-if", "S7-shadow-global", "S8-catch-var",
+var c01SwReFnStart = regexp.MustCompile(`^(async\s+)?function\b`)
+var c01SwReLoneClass = regexp.MustCompile(`^\s*(class\b|(let|const)\s+[\w$]+\s*=\s*class\b)`)
+var c01SwReVarObj = regexp.MustCompile(`\bvar\s*\{`)
+
+// an identifier in binding position of a pattern: followed by , } ] or = and not a property key (not followed by :)
+var c01SwReBindName = regexp.MustCompile(`[A-Za-z_$][\w$]*\s*[,}\]=]`)
+
+var c01SwKeys2 = []string{"S15-class-effects", "S16-hoist-empty-pattern", "S11f-else-function", "S1-param-default", "S3-destructure-block", "S4-static-num", "S5-static-var", "S6-static-if", "S7-shadow-global", "S8-catch-var",
 	"S9-line-continuation", "S10-lone-decl", "S11-else-lexical", "S12-static-lexical", "K1-return-undefined", "K2-call-merge", "K3-pure-binary", "K4-math"}
